@@ -7,7 +7,8 @@
 From Coq Require Import List Bool NArith PeanoNat.
 Import ListNotations.
 Require Import PV.Binder.Kind PV.Gen.Kinds PV.Binder.Sig PV.Binder.SigAssign PV.Binder.PyBind.
-Require Import PV.Proofs.SigAssignRefute PV.Proofs.SigAssignSmall PV.Proofs.SigAssignLoop PV.Proofs.SigAssignSound.
+Require Import PV.Proofs.SigAssignRefute PV.Proofs.SigAssignSmall PV.Proofs.SigAssignLoop PV.Proofs.SigAssignSound PV.Proofs.BinderGen.
+Require Import PV.Gen.BinderShape.
 Open Scope N_scope.
 
 (* The full statement: an accepted pair is behaviourally sound on every call. *)
@@ -139,3 +140,14 @@ Theorem C07_accept_required_posonly : forall e a,
   exists m, nth_error e j = Some m /\ pkind m = PO /\ pdefault m = false.
 Proof. exact accept_required_posonly. Qed.
 Print Assumptions C07_accept_required_posonly.
+
+(* Tie to the current source: the "takes extra (required) parameter" loop of
+   Signature.can_assign, as translated from signature.py on this run
+   (Gen/BinderShape.v, gen_extra_required_ok), is the one of the model. *)
+Theorem C07_sca_uses_generated_loop : forall e a,
+  sca e a = match sca_loop a 0 (mkC [] [] [] []) e with
+            | None => None
+            | Some st => if forallb (gen_extra_required_ok st) a then Some (rev (obl st)) else None
+            end.
+Proof. exact sca_uses_generated_loop. Qed.
+Print Assumptions C07_sca_uses_generated_loop.
